@@ -1046,6 +1046,20 @@ def norm_host(h):
         h = h[1:-1]
     return h.lower()
 
+def domain_fits(host, pattern):
+    """could `host` be an instance of the domain pattern, whatever its parameter constraints mean?"""
+    rx = b''
+    i = 0
+    while i < len(pattern):
+        if pattern[i:i+1] == b'{':
+            j = pattern.find(b'}', i)
+            if j < 0:
+                rx += re.escape(pattern[i:]); break
+            rx += b'.*'; i = j + 1
+        else:
+            rx += re.escape(pattern[i:i+1]); i += 1
+    return re.fullmatch(rx, host, re.S) is not None
+
 def judge_c14(ops, impl):
     """Hosts.Match accepts iff the normalised host resolves (reference resolver of C02) against the
     registered domains, and reports that pattern's parameters."""
@@ -1058,14 +1072,20 @@ def judge_c14(ops, impl):
         if toks[0] == 'hosts' and obs == 'ok':
             hosts[int(toks[1])] = dict(doms=[d.lower() for d in decL(toks[2])], ic={}, tainted=False)
         elif toks[0] == 'hosts-add' and obs == 'ok' and int(toks[1]) in hosts:
+            hosts[int(toks[1])].pop('deleted', None); hosts[int(toks[1])]['answers'] = {}
             d = decB(toks[2]).lower()
             if d not in hosts[int(toks[1])]['doms']:
                 hosts[int(toks[1])]['doms'].append(d)
             # an interceptor registered later changes the kind of later-added domains only
         elif toks[0] == 'hosts-del' and int(toks[1]) in hosts:
             d = decB(toks[2]).lower()
-            hosts[int(toks[1])]['doms'] = [x for x in hosts[int(toks[1])]['doms'] if x != d]
+            hh = hosts[int(toks[1])]
+            hh['doms'] = [x for x in hh['doms'] if x != d]
+            # frame of Delete: a host accepted before and rejected right after must have been served by the deleted domain
+            # (answers = what was observed since the previous mutation of this instance)
+            hh['deleted'] = (d, dict(hh.get('answers', {}))); hh['answers'] = {}
         elif toks[0] == 'hosts-icpt' and obs == 'ok' and int(toks[1]) in hosts:
+            hosts[int(toks[1])].pop('deleted', None); hosts[int(toks[1])]['answers'] = {}
             hosts[int(toks[1])]['tainted'] = True   # kinds now depend on registration time: judge only literals
         elif toks[0] == 'hosts-match' and obs.startswith('match ') and int(toks[1]) in hosts:
             h = hosts[int(toks[1])]
@@ -1076,6 +1096,9 @@ def judge_c14(ops, impl):
             parts = obs.split(' ')
             ok = parts[1] == '1'
             ps = tuple(sorted(decM(parts[2])))
+            h.setdefault('answers', {})[nh] = ok
+            if h.get('deleted') and not ok and h['deleted'][1].get(nh) is True and not domain_fits(nh, h['deleted'][0]):
+                bad.append((i, 'host %r was accepted before Delete(%r) and is rejected after it, although it cannot belong to the deleted domain' % (host, h['deleted'][0])))
             lits = [d for d in h['doms'] if b'{' not in d]
             if nh in lits and nh not in (b'', b'*'):
                 if not ok:
